@@ -155,6 +155,23 @@ class _StrInterp:
                 and e.value.id in self.env and isinstance(
                 self.env[e.value.id], tuple) and e.attr == "name":
             return self.env[e.value.id][1]
+        if isinstance(e, ast.Attribute) and isinstance(e.value, ast.Name) \
+                and e.value.id == "cls" and e.attr in (
+                    "__match_args__", "__annotations__", "__slots__"):
+            from . import ModelViolation
+            raise ModelViolation(
+                "T/template/field-source",
+                f"pymbolic/primitives.py:{e.lineno}",
+                f"the generated methods are instantiated from cls.{e.attr}, "
+                "not from dataclasses.fields(cls): "
+                + {"__match_args__": "keyword-only and init=False fields are "
+                   "not in it",
+                   "__annotations__": "the fields of base classes are not in "
+                   "it (and ClassVars are)",
+                   "__slots__": "a dataclass has none unless asked"}[e.attr]
+                + ", so a node class that declares such a field compares and "
+                "hashes without it (Tagged((x, y), tag='u') == "
+                "Tagged((x, y), tag='v'))")
         raise TemplateError(f"cannot interpret {ast.unparse(e)} in the "
                             "hole-building code")
 
